@@ -248,6 +248,66 @@ Section CreateExit.
     - destruct (missing_history_folders C hs t); repeat split; intros; try discriminate; auto 10.
     - repeat split; intros; try discriminate; auto 10.
   Qed.
+  (* the number of failed formats of one visited file: those of its seal decision in the history it is routed to *)
+  Definition file_failures (hs : list lhist) (fmts : list fmt) (x : path * bytes) : nat :=
+    let h := route hs (root_hist hs) (fst x) in
+    length (filter (fun r : fmt * bool => negb (snd r))
+                   (snd (seal (lh_gens h) (strip_prefix (lh_root h) (fst x)) (fun f => digest_text Hb f (snd x)) fmts))).
+  Lemma fold_events_fails hs fmts no_dh spec t : forall evs s f,
+    snd (fold_left (process_event Hb matches C hs fmts no_dh spec t) evs (s, f)) =
+    f + list_sum (map (file_failures hs fmts) (ev_files evs)).
+  Proof.
+    induction evs as [|e evs IH]; intros s f; cbn [fold_left]; [cbn; lia|].
+    destruct e as [p c|p k]; cbn [process_event].
+    - unfold seal_file, route_to, rooth. destruct (seal _ _ _ fmts) as [es res] eqn:Es.
+      rewrite IH. unfold ev_files at 2. cbn [flat_map app map list_sum]. fold (ev_files evs). unfold file_failures at 2. cbn [fst snd]. rewrite Es. cbn [snd]. unfold list_sum. cbn [fold_right]. lia.
+    - rewrite IH. reflexivity.
+  Qed.
+  (* create exits 11 exactly when some visited file has a failed format -- unless the run aborts (validation) *)
+  Theorem create_exit_11_iff t req no_dh ip ifl hs : load C cdig t = inl hs ->
+    let spec := set_patterns (latest_patterns (lh_gens (root_hist hs))) ip (pattern_file_lines ifl) in
+    let o := snd (create_folder Hb matches C cdig ser t req no_dh false ip ifl) in
+    o_outcome o = Abort \/
+    (o_outcome o = Exit 11 <-> exists x, In x (ev_files (events matches C spec [] t)) /\ file_failures hs (sort_fmts req) x <> 0).
+  Proof.
+    intros Hl. cbn zeta. unfold create_folder. rewrite Hl.
+    match goal with |- context [fold_left ?f ?l ?i] => pose proof (fold_events_fails hs (sort_fmts req) no_dh
+      (set_patterns (latest_patterns (lh_gens (root_hist hs))) ip (pattern_file_lines ifl)) t l [] 0 : snd (fold_left f l i) = _) as Hf; destruct (fold_left f l i) as [sess fails] end.
+    cbn [snd] in Hf. cbn [snd o_outcome dr_abort dr_sess dr_found].
+    destruct (cs_abort C _ || false)%bool; [left; reflexivity|right].
+    set (L := map (file_failures hs (sort_fmts req)) _) in Hf. cbn [Nat.add] in Hf.
+    assert (Hsum : fails <> 0 <-> exists x, In x (ev_files (events matches C (set_patterns (latest_patterns (lh_gens (root_hist hs))) ip (pattern_file_lines ifl)) [] t)) /\ file_failures hs (sort_fmts req) x <> 0).
+    { rewrite Hf. unfold L. clear. induction (ev_files _) as [|x l IH]; cbn [map list_sum].
+      - split; [intros H; exfalso; apply H; reflexivity|intros [x [[] _]]].
+      - split.
+        + intros H. destruct (Nat.eq_dec (file_failures hs (sort_fmts req) x) 0) as [E|E].
+          * rewrite E in H. change (list_sum (map (file_failures hs (sort_fmts req)) l) <> 0) in H. apply IH in H. destruct H as [y [Hy Hn]]. exists y. split; [right; exact Hy|exact Hn].
+          * exists x. split; [left; reflexivity|exact E].
+        + unfold list_sum in *. cbn [fold_right]. intros [y [[<-|Hy] Hn]]; [lia|]. assert (fold_right Nat.add 0 (map (file_failures hs (sort_fmts req)) l) <> 0) by (apply IH; eauto). lia. }
+    destruct (Nat.ltb_spec 0 fails) as [Hpos|Hz].
+    - split; [intros _; apply Hsum; lia|reflexivity].
+    - split.
+      + intros H. exfalso. destruct (sorted_paths _); [destruct (missing_history_folders C hs t)|]; discriminate H.
+      + intros H. apply Hsum in H. lia.
+  Qed.
+  (* a recorded path that is neither visited nor ignored makes create exit 10 and name it -- unless a format failed (11)
+     or the run aborts *)
+  Theorem create_missing_entry_detected t req no_dh ip ifl hs q : load C cdig t = inl hs ->
+    let spec := set_patterns (latest_patterns (lh_gens (root_hist hs))) ip (pattern_file_lines ifl) in
+    let o := snd (create_folder Hb matches C cdig ser t req no_dh false ip ifl) in
+    In q (expected_paths hs) -> ~ In q (visited (events matches C spec [] t)) -> ignored matches spec q = false ->
+    o_outcome o = Abort \/ o_outcome o = Exit 11 \/ (o_outcome o = Exit 10 /\ In q (o_missing o)).
+  Proof.
+    intros Hl. cbn zeta. intros Hexp Hnv Hign. unfold create_folder. rewrite Hl.
+    destruct (fold_left _ _ _) as [sess fails]. cbn [snd o_outcome o_missing dr_abort dr_sess dr_found].
+    destruct (cs_abort C _ || false)%bool; [left; reflexivity|right].
+    destruct (Nat.ltb 0 fails); [left; reflexivity|right].
+    match goal with |- context [sorted_paths ?m] => assert (Hq : In q (sorted_paths m)) end.
+    { apply sorted_paths_In. unfold missing. apply filter_In. split; [|rewrite Hign; reflexivity].
+      unfold diff_paths. apply filter_In. split; [|reflexivity]. apply filter_In. split; [exact Hexp|]. apply negb_true_iff.
+      match goal with |- mem_path q ?v = false => destruct (mem_path q v) eqn:Em; [apply mem_path_In in Em; contradiction|reflexivity] end. }
+    destruct (sorted_paths _) as [|m ms]; [destruct Hq|]. split; [reflexivity|exact Hq].
+  Qed.
 End CreateExit.
 
 (* C03, "never a false one": a tree that is consistent with its loaded histories -- every visited file's bytes hash to
@@ -369,5 +429,58 @@ Section Detection.
     destruct (o_missing (snd (verify_like Hb matches C cdig false t None ipats ifile))) as [|m0 ms]; [destruct Hq|].
     destruct (o_mismatch (snd (verify_like Hb matches C cdig false t None ipats ifile))), (o_new (snd (verify_like Hb matches C cdig false t None ipats ifile)));
       rewrite Hcode; split; try discriminate; intros; congruence.
+  Qed.
+  (* ---- the same for diff (no hashing): new and missing entries ---- *)
+  Lemma diff_new_reports t ipats ifile hs : load C cdig t = inl hs -> lh_gens (root_hist hs) <> [] ->
+    let spec := set_patterns (latest_patterns (lh_gens (root_hist hs))) ipats (pattern_file_lines ifile) in
+    forall p, In p (o_new (snd (verify_like Hb matches C cdig true t None ipats ifile))) <->
+              exists c, In (p, c) (ev_files (events matches C spec [] t)) /\ reference hs p = None.
+  Proof.
+    intros Hl Hg. cbn zeta. unfold verify_like. rewrite Hl. destruct (lh_gens (root_hist hs)) as [|g0 gs] eqn:Eg; [congruence|].
+    cbn [snd o_new]. intros p. rewrite sorted_paths_In.
+    destruct (verify_file_fold Hb hs (negb true) None
+                (ev_files (events matches C (set_patterns (latest_patterns (g0 :: gs)) ipats (pattern_file_lines ifile)) [] t))
+                (mkVS [] [] false)) as [H1 _].
+    rewrite H1. cbn [vs_new app negb]. rewrite in_map_iff. split.
+    - intros [[p0 c] [<- Hin]]. apply filter_In in Hin. destruct Hin as [Hin Hc]. unfold classify in Hc. cbn [negb fst snd] in Hc.
+      destruct (reference hs p0) as [e|] eqn:Er; [discriminate|]. exists c. auto.
+    - intros [c [Hin Hr]]. exists (p, c). split; [reflexivity|]. apply filter_In. split; [exact Hin|].
+      unfold classify. cbn [negb fst snd]. rewrite Hr. reflexivity.
+  Qed.
+  Theorem diff_new_file_detected t hs ipats ifile p c r :
+    load C cdig t = inl hs ->
+    In (p, c) (ev_files (events matches C (set_patterns (latest_patterns (lh_gens (root_hist hs))) ipats (pattern_file_lines ifile)) [] t)) ->
+    reference hs p = None ->
+    verify_result Hb matches C cdig true t ipats ifile = Some r ->
+    In p (vr_new r) /\ (vr_code r = 10%Z \/ vr_code r = 21%Z) /\ (vr_missing r = [] -> vr_code r = 21%Z).
+  Proof.
+    intros Hl Hin Hr Hv. pose proof (diff_exit_selection Hb matches C cdig t ipats ifile r Hv) as Hcode.
+    assert (Hg : lh_gens (root_hist hs) <> []) by (intros E; unfold verify_result in Hv; rewrite Hl, E in Hv; discriminate).
+    assert (Hp : In p (o_new (snd (verify_like Hb matches C cdig true t None ipats ifile)))) by (apply (diff_new_reports t ipats ifile hs Hl Hg); exists c; auto).
+    unfold verify_result in Hv. rewrite Hl in Hv. destruct (lh_gens (root_hist hs)) as [|g0 gs] eqn:Eg; [congruence|].
+    destruct (o_outcome (snd (verify_like Hb matches C cdig true t None ipats ifile))) as [code|] eqn:Eo; [|discriminate].
+    injection Hv as <-. cbn [vr_code vr_mismatch vr_new vr_missing] in *. split; [exact Hp|].
+    destruct (o_new (snd (verify_like Hb matches C cdig true t None ipats ifile))) as [|n0 ns]; [destruct Hp|].
+    destruct (o_missing (snd (verify_like Hb matches C cdig true t None ipats ifile))); rewrite Hcode; split; auto; intros; congruence.
+  Qed.
+  Theorem diff_missing_entry_detected t hs ipats ifile q r :
+    load C cdig t = inl hs ->
+    let spec := set_patterns (latest_patterns (lh_gens (root_hist hs))) ipats (pattern_file_lines ifile) in
+    In q (expected_paths hs) -> ~ In q (visited (events matches C spec [] t)) -> ignored matches spec q = false ->
+    verify_result Hb matches C cdig true t ipats ifile = Some r ->
+    In q (vr_missing r) /\ vr_code r = 10%Z.
+  Proof.
+    intros Hl. cbn zeta. intros Hexp Hnv Hign Hv. pose proof (diff_exit_selection Hb matches C cdig t ipats ifile r Hv) as Hcode.
+    assert (Hg : lh_gens (root_hist hs) <> []) by (intros E; unfold verify_result in Hv; rewrite Hl, E in Hv; discriminate).
+    assert (Hq : In q (o_missing (snd (verify_like Hb matches C cdig true t None ipats ifile)))).
+    { unfold verify_like. rewrite Hl. destruct (lh_gens (root_hist hs)) as [|g0 gs] eqn:Eg; [congruence|]. cbn [snd o_missing]. apply sorted_paths_In. unfold missing. apply filter_In. split.
+      - unfold diff_paths. apply filter_In. split; [exact Hexp|]. apply negb_true_iff.
+        destruct (mem_path q (visited (events matches C (set_patterns (latest_patterns (g0 :: gs)) ipats (pattern_file_lines ifile)) [] t))) eqn:Em; [|reflexivity].
+        apply mem_path_In in Em. contradiction.
+      - rewrite Hign. reflexivity. }
+    unfold verify_result in Hv. rewrite Hl in Hv. destruct (lh_gens (root_hist hs)) as [|g0 gs] eqn:Eg; [congruence|].
+    destruct (o_outcome (snd (verify_like Hb matches C cdig true t None ipats ifile))) as [code|] eqn:Eo; [|discriminate].
+    injection Hv as <-. cbn [vr_code vr_mismatch vr_new vr_missing] in *. split; [exact Hq|].
+    destruct (o_missing (snd (verify_like Hb matches C cdig true t None ipats ifile))) as [|m0 ms]; [destruct Hq|]. exact Hcode.
   Qed.
 End Detection.
